@@ -481,12 +481,16 @@ impl SubRule {
         *self.variables.borrow_mut() = back_varlbs.clone();
         
         let max = match_max.unwrap_or(usize::MAX);
+        // where the repetitions matched so far end; a failed attempt at the rest of the environment must not move it
+        let mut rep_pos = back_pos;
         while index < max {
             #[cfg(feature = "verif")] crate::verif::tick(111);
             *state_index = back_state;
+            *pos = rep_pos;
             let opt_start = *pos;
             if self.match_opt_states(opt_states, word, pos, forwards)? {
                 let opt_end = *pos;
+                rep_pos = opt_end;
                 let mut m = true;
                 while *state_index < states.len() {
                     #[cfg(feature = "verif")] crate::verif::tick(112);
